@@ -31,7 +31,10 @@ def install_invariants():
         # reads the slots directly: no crysp code (property getter) runs inside the monitor, so a failpoint
         # armed by S5 cannot fire in here and the monitor does not perturb the line count
         S1_COUNT['bits'] += 1
-        iv = self.ival; sz = self._Bits__sz; mk = self.mask
+        iv = self.ival; mk = self.mask
+        sz = getattr(self, '_Bits__sz', None)
+        if sz is None:
+            sz = self.size          # the slot was renamed by a refactoring: fall back to the public property
         ok = isinstance(iv, int) and isinstance(sz, int) and 0 <= iv <= mk and mk == (1 << sz) - 1
         if not ok and len(S1_FAIL) < 50:
             S1_FAIL.append(('Bits', 'ival=%r size=%r mask=%r' % (iv, sz, mk)))
